@@ -3,6 +3,7 @@
   Pure: `dispatch : String → String`.
 -/
 import DnsModel.Dump
+import DnsModel.Renamer
 namespace Dns
 
 /-- cursor script: `set n`, `inc n`, `rdlen`, `ednsrdlen` — one result per step, then the offset -/
@@ -35,6 +36,30 @@ def dispatchWords : List String → String
     match parseHex h, off.toNat? with
     | some p, some o => fmtRes toString (checkUncompressedName p o)
     | _, _ => "bad-args"
+  | ["uncompress", h, r] =>
+    match parseHex h with
+    | some p =>
+      if r == "-" then
+        let first := uncompress p
+        let idem := match first with
+          | .ok u => (match uncompress u with | .ok u2 => if u2 == u then " idem=1" else " idem=0" | _ => " idem=fail")
+          | _ => ""
+        fmtRes toHex first ++ idem
+      else match r.toNat? with
+        | some ro => fmtRes (fun (x : Bytes × Nat) => s!"{toHex x.1} {x.2}") (uncompressWithPreviousOffset p ro)
+        | none => "bad-args"
+    | none => "bad-hex"
+  | ["compress", h] =>
+    match parseHex h with
+    | some p => fmtRes toHex (compress p)
+    | none => "bad-hex"
+  | ["rename", h, t, s, sfx] =>
+    match parseHex h, parseHex t, parseHex s with
+    | some p, some t, some s =>
+      (match parsePP p with
+        | .ok pp => fmtRes toHex (renameWithRawNames pp t s (sfx == "1"))
+        | r => "noparse " ++ fmtRes (fun _ => "") r)
+    | _, _, _ => "bad-hex"
   | ["iter", h] =>
     match parseHex h with
     | some p => (match parsePP p with
